@@ -10,8 +10,9 @@ in-memory SFTPServerInterface whose callbacks are forced to succeed / return an 
 request the harness knows the abstract classification the model needs and compares the real response packets
 (count, type, id, status code) with the model's.  Client: the C29 lockstep programs (outcome per call incl. hang).
 
-Oracle (model independent): exactly one response per request, same id, type valid for the request type (table
-written here), the server still answers afterwards — on the classified requests and on a malformed stream (unknown
+Oracle (model independent): every response packet is parsed strictly by a parser written here (field by field, no
+padding, nothing left over, NAME count == entries present); exactly one response per request, same id, type valid
+for the request type (table written here), the server still answers afterwards — on the classified requests and on a malformed stream (unknown
 command numbers, truncated / mutated payloads, random attribute blocks with capped extended counts); per-request
 watchdog = the server thread goes idle (structural), a read budget turns an unbounded read loop into a failure.
 Client programs mixing pipelined writes, prefetch reads, stat and listdir on one session must complete.
@@ -56,6 +57,85 @@ def attrs_block(rng, legal=True):
     return struct.pack(">I", flags) + body
 
 
+class Malformed(Exception):
+    pass
+
+
+class Strict:
+    """Strict reader over one response packet: nothing is padded, nothing may be left over."""
+
+    def __init__(self, b):
+        self.b, self.i = b, 0
+
+    def u32(self, what):
+        if self.i + 4 > len(self.b):
+            raise Malformed("packet ends inside the 4-byte %s at offset %d" % (what, self.i))
+        v = struct.unpack(">I", self.b[self.i:self.i + 4])[0]
+        self.i += 4
+        return v
+
+    def u64(self, what):
+        if self.i + 8 > len(self.b):
+            raise Malformed("packet ends inside the 8-byte %s at offset %d" % (what, self.i))
+        self.i += 8
+
+    def string(self, what):
+        n = self.u32("length of " + what)
+        if self.i + n > len(self.b):
+            raise Malformed("%s announces %d bytes, %d are left" % (what, n, len(self.b) - self.i))
+        v = self.b[self.i:self.i + n]
+        self.i += n
+        return v
+
+    def attrs(self):
+        flags = self.u32("attribute flags")
+        if flags & 1:
+            self.u64("size")
+        if flags & 2:
+            self.u32("uid"), self.u32("gid")
+        if flags & 4:
+            self.u32("permissions")
+        if flags & 8:
+            self.u32("atime"), self.u32("mtime")
+        if flags & 0x80000000:
+            for k in range(self.u32("extended count")):
+                self.string("extended name %d" % k), self.string("extended value %d" % k)
+
+    def end(self):
+        if self.i != len(self.b):
+            raise Malformed("%d bytes left over after the last field" % (len(self.b) - self.i))
+
+
+def strict_check(t, body):
+    """Parse one response packet (type t, body = everything after the type byte) exactly as
+    draft-ietf-secsh-filexfer-02 lays it out.  Returns None or a description of what is wrong."""
+    try:
+        r = Strict(body)
+        r.u32("request id")
+        if t == STATUS:
+            r.u32("status code"), r.string("error message"), r.string("language tag")
+            r.end()
+        elif t in (HANDLE, DATA):
+            r.string("handle" if t == HANDLE else "data")
+            r.end()
+        elif t == NAME:
+            n = r.u32("name count")
+            for k in range(n):
+                r.string("filename %d of %d" % (k + 1, n)), r.string("longname %d of %d" % (k + 1, n))
+                r.attrs()
+            r.end()
+        elif t == ATTRS:
+            r.attrs()
+            r.end()
+        elif t == EXTREPLY:
+            pass
+        else:
+            return None
+        return None
+    except Malformed as e:
+        return str(e)
+
+
 def parse_resp(pkts):
     out = []
     for t, body in pkts:
@@ -63,6 +143,17 @@ def parse_resp(pkts):
         code = struct.unpack(">I", body[4:8])[0] if t == STATUS and len(body) >= 8 else None
         out.append((t, rid, code))
     return out
+
+
+def malformed_in(pkts):
+    """first strict-parse complaint among raw response packets, or None"""
+    for t, body in pkts:
+        if t is None:
+            return "empty packet"
+        m = strict_check(t, body)
+        if m:
+            return "type %d: %s" % (t, m)
+    return None
 
 
 class Srv:
@@ -77,11 +168,23 @@ class Srv:
         fs.files["/d/y"] = bytearray(b"yy")
         fs.dirs.add("/d")
         fs.links["/l"] = "/a"
+        # names that cannot be sent as UTF-8 (a latin-1 file name seen through os.fsdecode), and a very long one
+        fs.links["/lbad"] = "caf\udce9-latin1"
+        fs.dirs.add("/u")
+        fs.files["/u/caf\udce9-latin1.txt"] = bytearray(b"x")
+        fs.files["/u/plain.txt"] = bytearray(b"y")
+        fs.dirs.add("/w")
+        fs.files["/w/" + "n" * 3000] = bytearray(b"z")
+        fs.files["/w/\u00e9\u4e2d\U0001f600.txt"] = bytearray(b"z")
+        self.last_malformed = None
         fs.read_budget = 200000
         self.rid = 1000
         self.dir_reads = 0
         self.hF = self._handle(bytes([3]) + struct.pack(">I", 1) + s_(b"/a") + struct.pack(">I", 3) + struct.pack(">I", 0))
         self.hD = self._handle(bytes([11]) + struct.pack(">I", 2) + s_(b"/d"))
+        self.hU = self._handle(bytes([11]) + struct.pack(">I", 3) + s_(b"/u"))
+        self.hW = self._handle(bytes([11]) + struct.pack(">I", 4) + s_(b"/w"))
+        self.w_reads = 0
 
     def _handle(self, pkt):
         r = self.sess.raw_exchange([pkt])
@@ -100,6 +203,7 @@ class Srv:
             raise InfraError("%s (request type %d payload %s force %r)" % (e, t, hx(payload)[:120], force))
         finally:
             self.sess.fs.force = None
+        self.last_malformed = malformed_in(r)
         return parse_resp(r), self.sess.fs.budget_hit
 
     def alive(self):
@@ -166,7 +270,18 @@ def gen_classified(rng, srv):
     elif t == 11:
         body += s_(path or b"/d")
     elif t == 12:
-        if hkind == "d":
+        which = rng.random()
+        if hkind == "d" and which < 0.25:
+            # a listing with a name that cannot be encoded: the encoder raises, the catch-all answers (the
+            # listing is not consumed: _get_next_files already took the batch, so the next READDIR is at the end)
+            handle = srv._handle(bytes([11]) + I(7) + s_(b"/u"))
+            close_raises = True
+            force = {"unencodable": True}
+        elif hkind == "d" and which < 0.4:
+            handle = srv.hW  # very long and non-ASCII (but encodable) names
+            a["empty"] = 1 if srv.w_reads > 0 else 0
+            srv.w_reads += 1
+        elif hkind == "d":
             # the first READDIR returns the whole (short) listing, every later one is at the end
             a["empty"] = 1 if srv.dir_reads > 0 else 0
             srv.dir_reads += 1
@@ -183,7 +298,12 @@ def gen_classified(rng, srv):
         body += s_(handle) + at
         uses_cb = hkind == "f"
     elif t == 19:
-        body += s_(path or b"/l")
+        if rng.random() < 0.2 and not badtext and outcome == "ok":
+            body += s_(b"/lbad")  # the link target cannot be encoded: the response builder raises
+            close_raises = True
+            force = {"unencodable": True}
+        else:
+            body += s_(path or b"/l")
     elif t == 20:
         body += s_(path or b"/a") + s_(b"/l2")
         if outcome == "ok":
@@ -239,7 +359,10 @@ def gen_classified(rng, srv):
         a["raises"], a["ok"], force = 1, 0, None  # the decoder raises before any callback runs
     elif close_raises:
         a["raises"], a["ok"] = 1, 0
-        force = force if (force and force.get("canonicalize")) else {"raise": True}
+        if force and force.get("unencodable"):
+            force = None  # nothing is injected: the data itself makes the response builder raise
+        else:
+            force = force if (force and force.get("canonicalize")) else {"raise": True}
     elif not uses_cb:
         # no callback is involved: forced outcomes do not apply
         a["raises"], a["ok"] = 0, 1
@@ -257,7 +380,7 @@ def gen_malformed(rng, srv):
         # these decode an attribute block: keep the layout exact (name/handle, [pflags,] attributes) so that no
         # random byte can land in the flags word and announce 2^31 extended pairs (a count the decoder would loop
         # over for minutes before answering); truncation below only ever shortens fields (zero padded)
-        first = rng.choice([srv.hF, srv.hD, b"nope"]) if t == 10 else rng.choice([b"/a", b"/nofile", b"/d"])
+        first = rng.choice([srv.hF, srv.hD, b"nope"]) if t == 10 else rng.choice([b"/a", b"/nofile", b"/d", b"/u/plain.txt"])
         body += s_(first)
         if t == 3:
             body += struct.pack(">I", rng.randrange(0, 64))
@@ -267,7 +390,7 @@ def gen_malformed(rng, srv):
         if r < 0.4:
             body += rng.randbytes(rng.randrange(0, 40))
         else:
-            body += s_(rng.choice([srv.hF, b"/a", b"check-file"])) + struct.pack(">Q", rng.randrange(0, 200)) + \
+            body += s_(rng.choice([srv.hF, srv.hU, srv.hW, b"/a", b"/u", b"/lbad", b"check-file"])) + struct.pack(">Q", rng.randrange(0, 200)) + \
                 struct.pack(">I", rng.randrange(0, 300)) + rng.randbytes(rng.randrange(0, 10))
     if rng.random() < 0.3:
         body = body[:rng.randrange(0, len(body) + 1)]
@@ -278,8 +401,11 @@ def expected_id(body):
     return struct.unpack(">I", (body[:4] + b"\0\0\0\0")[:4])[0]
 
 
-def check_property(ctx, t, body, resp, budget_hit, case):
-    """exactly one response, same id, valid type"""
+def check_property(ctx, t, body, resp, budget_hit, case, malformed=None):
+    """exactly one response, same id, valid type, and every response packet parses strictly"""
+    if malformed:
+        ctx.fail("malformed-response:cmd%d" % t, case, "a strict parser rejects the response: " + malformed)
+        return False
     if budget_hit:
         ctx.fail("server-read-loop-unbounded:cmd%d" % t, case, "one request made more than 200000 handle reads")
         return False
@@ -505,7 +631,9 @@ def run(ctx):
     threading.excepthook = lambda a: None
     ctx.rule = ("server: raw requests over every handled command, unknown and named-but-unhandled command numbers, "
                 "three handle kinds, callbacks forced to succeed / return codes 1..8 / raise, undecodable paths, every "
-                "extended tag and every exit of check-file (ranges beyond EOF included); distinct = distinct "
+                "extended tag and every exit of check-file (ranges beyond EOF included), directory listings and link "
+                "targets with names that cannot be encoded as UTF-8 (lone surrogates), 3000-character and non-ASCII "
+                "names; distinct = distinct "
                 "(type, classification, code); plus a malformed stream (random/truncated payloads, random attribute "
                 "blocks with extended count <= 3). client: C29 lockstep programs + threaded mixes of pipelined "
                 "writes, prefetch, stat, listdir")
@@ -530,7 +658,7 @@ def run(ctx):
             ctx.dist("outcome:%s" % ("raise" if a["raises"] else "ok" if a["ok"] else "code"))
             if i % 180 == 0:
                 ctx.sample({"request": case, "response": resp})
-            check_property(ctx, t, body, resp, budget_hit, case)
+            check_property(ctx, t, body, resp, budget_hit, case, srv.last_malformed)
             reqs.append("srv %d %d %s %d %d %s %d %s" % (t, rid, a["hk"], a["ok"], a["raises"], a["ext"], a["empty"], a["cf"]))
             expect.append((resp, cb))
             cases.append(case)
@@ -558,7 +686,7 @@ def run(ctx):
             case = {"type": t, "payload": hx(body)[:200]}
             ctx.case(("mal", t, body), True)
             ctx.dist("malformed")
-            check_property(ctx, t, body, resp, budget_hit, case)
+            check_property(ctx, t, body, resp, budget_hit, case, srv.last_malformed)
             if i % 60 == 0 and not srv.alive():
                 ctx.fail("server-stops-answering", case, "REALPATH probe after this request got no proper answer")
                 srv.close()
@@ -656,7 +784,8 @@ META = {
               "failures are STATUS; every control-flow path through every branch of the source of _process and through its "
               "helpers calls a responder exactly once, and every exception path (sends so far + finally blocks + the catch-all "
               "in start_subsystem) too (source_paths_send_exactly_once, source_exception_paths_send_exactly_once, AST "
-              "tables); every packet type that a responder call in any branch of the *source* of _process "
+              "tables); the READDIR answer's count field and entries come from the same list "
+              "(source_readdir_count_matches_entries); every packet type that a responder call in any branch of the *source* of _process "
               "and its helpers can emit is valid for that branch (table regenerated from the AST each run: "
               "source_branches_emit_valid_types), and the model stays within that table. Client: no call ever waits "
               "with nothing outstanding, for every program mixing pipelined writes, plain writes, other requests and "
